@@ -200,7 +200,7 @@ def fam_c03(ctx):
     S += inject_everywhere(base2, [[["die", "oldest", 0]], [["die", "youngest", 256], ["die", "oldest", 256]],
                                    [["sig", "TTIN"]]], stride=1 if not ctx.quick else 2)
     # seeded random histories
-    n = 700 if ctx.quick else 6000
+    n = 1000 if ctx.quick else 6000
     for i in range(n):
         S.append(rnd(ctx.seed * 100000 + i, nw=rng.choice([1, 2, 2, 3]), timeout=rng.choice([1, 2, 3]),
                      events=rng.choice([3, 6, 10, 16]), sigs=["TTIN", "TTOU", "HUP", "TTOU", "TTIN"],
@@ -482,6 +482,7 @@ def judge(ctx, prop, runs):
     for (spec, t), (v, step) in zip(runs, verdicts):
         if v == "ok":
             continue
+        step -= 1                      # the monitor reports the 1-based index of the failing event
         if v == "BadTrace":
             raise tlc.TLCError("harness produced an inconsistent trace at step %d: %s" % (step, t["ev"][max(0, step - 3):step + 1]))
         sig = signature(prop, t, v, step)
@@ -536,9 +537,9 @@ def common(ctx, prop, fam, design, deviations, sim_kinds):
 
 def c03(ctx):
     design = [
-        ("c03_safety", dict(MaxFaults=1, MaxSigs=2, inv=SAFETY)),
+        ("c03_safety", dict(MaxFaults=1, MaxSigs=2, inv=SAFETY, workers=8)),
         ("c03_live", dict(MaxFaults=2, MaxSigs=1, Statuses={"err", "b3"}, HupW={1},
-                          props=["Converges", "BootFailureHalts"], inv=SAFETY)),
+                          props=["Converges", "BootFailureHalts"], inv=SAFETY, workers=2)),
     ]
     dev = [
         ("c03_dev_ghost", "Converges", dict(MaxFaults=1, MaxSigs=0, Statuses={"err"}, Dev={"HbInitWallClock"},
